@@ -82,6 +82,14 @@ fn one_case(ctx: &WorkerCtx, rep: &mut WorkerReport, case_seed: u64, boundary: b
     let sender_pk = bed.pk.clone();
     let sender = hist::addr_hex(&hist::pk_address(&sender_pk));
     let signer = Signer::new(31);
+    // a contract whose whole code is CALLER SELFDESTRUCT (since Cancun it survives the call)
+    let selfdestructor = {
+        let (ts, hash) = bed.next_block();
+        let r = bed.d.exec(Op::Deploy { pk: bed.pk.clone(), data: hist::hx(&asm::initcode(&[0x33, 0xff])), enc: Enc::Hex, ctx: Ctx { ts, hash: hash.clone(), idx: 0 }, iid: format!("c17-sd-{}", case_seed), len: 100_000, txid: hist::ZERO_HASH.into() });
+        let n = bed.d.ntx;
+        bed.d.exec(Op::Finalise { ts, hash, count: n });
+        hist::created_address(&r).unwrap_or_else(|| bed.tool.clone())
+    };
     let chain = rpc::chain_id_for(net);
     let tool = bed.tool.clone();
     let t20 = hist::parse_addr(&tool);
@@ -89,7 +97,7 @@ fn one_case(ctx: &WorkerCtx, rep: &mut WorkerReport, case_seed: u64, boundary: b
     let mut uniq = 0u64;
     for i in 0..pairs {
         uniq += 1;
-        let pick = if base > 0 && (bed.d.next_height() == act || rng.chance(1, 2)) { 14 } else { rng.below(22) };
+        let pick = if base > 0 && (bed.d.next_height() == act || rng.chance(1, 2)) { 14 } else { rng.below(23) };
         let (name, to, data): (&str, Option<String>, Vec<u8>) = match pick {
             // a precompile that exists from Prague on (BLS12-381 G1ADD of two points at infinity):
             // the answer tells which rule set ran the code
@@ -117,6 +125,8 @@ fn one_case(ctx: &WorkerCtx, rep: &mut WorkerReport, case_seed: u64, boundary: b
                 1 => asm::tool_init(),
                 _ => rng.bytes(36),
             }),
+            // the outermost frame ends with SELFDESTRUCT: a success (the third success reason besides STOP and RETURN)
+            22 => ("selfdestruct-top-level", Some(selfdestructor.clone()), rng.bytes(4)),
             18 => ("env-words", Some(envdump.clone()), vec![]),
             19 => ("deploy-env-stamped", None, asm::env_stamped_init()),
             12 => ("number-blockhash", Some(numhash.clone()), vec![]),
@@ -206,7 +216,7 @@ fn one_case(ctx: &WorkerCtx, rep: &mut WorkerReport, case_seed: u64, boundary: b
                     json!({"case_seed": case_seed, "network": net, "program": name, "signed": signed, "eth_call": sim_out, "executed": out, "receipt": rc}));
                 break;
             }
-            if ["inc", "cond", "sstore-old", "create-child", "create2-child", "nested-inc", "batch", "sload", "number-blockhash", "env-words", "sha256-of-huge-calldata", "call-zero-address"].contains(&name) {
+            if ["inc", "cond", "sstore-old", "create-child", "create2-child", "nested-inc", "batch", "sload", "number-blockhash", "env-words", "sha256-of-huge-calldata", "call-zero-address", "selfdestruct-top-level"].contains(&name) {
                 rep.nontrivial(format!("{}:{}:{}", name, signed, &out[out.len().saturating_sub(6)..]));
             }
             if name == "rule-set-probe" {
